@@ -409,6 +409,11 @@ class Builder(object):
       self.t['type_name'][lit] = (lit, slit(type(v).__name__))
     elif isinstance(v, (int, float)) and t not in (int, float, bool):
       self.t['type_name'][lit] = (lit, slit(type(v).__name__))
+      try:
+        s = repr(v)
+      except Exception:
+        s = None
+      self.t['repr'][lit] = (lit, opt(s, slit))
     if isinstance(v, float):
       self.add_float(v)
     elif isinstance(v, str):
@@ -431,7 +436,8 @@ class Builder(object):
       self.t['float_of_bytes'][b] = (zl(list(b)), opt(f, flit))
     elif t in (list, tuple, set, o.RecordList):
       for x in v:
-        self.collect(x, zones, depth + 1, encode_only)
+        # safe_repr of a set asks for the repr of every element
+        self.collect(x, zones, depth + 1, encode_only and t is not set)
     elif t is dict:
       for k, x in v.items():
         self.collect(k, zones, depth + 1, encode_only)
